@@ -1,4 +1,5 @@
 pub mod drv;
+pub mod esref;
 pub mod pat;
 pub mod props;
 pub mod run;
